@@ -122,6 +122,7 @@ func runJSONKeys(c *Ctx) {
 	// find json Encode(response) where response is a local map var
 	var encRef NodeRef
 	var respObj types.Object
+	var respStruct *types.Struct // the response is a struct value (keys from its json tags) instead of a map
 	scfg := srv.CFG()
 	scfg.Calls(func(r NodeRef, call *ast.CallExpr) {
 		if calleeIs(sinfo, call, "encoding/json", "Encoder.Encode") && len(call.Args) == 1 {
@@ -129,11 +130,14 @@ func runJSONKeys(c *Ctx) {
 				if _, isMap := o.Type().Underlying().(*types.Map); isMap {
 					encRef, respObj = r, o
 				}
+				if st, isStruct := o.Type().Underlying().(*types.Struct); isStruct {
+					encRef, respObj, respStruct = r, o, st
+				}
 			}
 		}
 	})
 	if respObj == nil {
-		c.Unknown("session-response/keys", srv.Pos(), "cannot find json Encode of a response map in the /session handler")
+		c.Unknown("session-response/keys", srv.Pos(), "cannot find json Encode of a response map or struct in the /session handler")
 		return
 	}
 	type keyInfo struct {
@@ -152,10 +156,34 @@ func runJSONKeys(c *Ctx) {
 					return "key:" + s, true
 				}
 			}
+			if sel, ok := ast.Unparen(l).(*ast.SelectorExpr); ok && respStruct != nil && ObjOf(f.Info(), sel.X) == respObj {
+				if t := structTagOf(respStruct, sel.Sel.Name); t != "" {
+					return "key:" + t, true
+				}
+			}
 		}
 		return "", false
 	}}}}
 	always := map[string]bool{}
+	omitEmpty := map[string]bool{}
+	if respStruct != nil {
+		for i := 0; i < respStruct.NumFields(); i++ {
+			tag := reflectTag(respStruct.Tag(i), "json")
+			parts := strings.Split(tag, ",")
+			name := parts[0]
+			if name == "" {
+				name = respStruct.Field(i).Name()
+			}
+			if name == "-" {
+				continue
+			}
+			for _, o := range parts[1:] {
+				if o == "omitempty" || o == "omitzero" {
+					omitEmpty[name] = true
+				}
+			}
+		}
+	}
 	scfg.EachNode(func(r NodeRef) {
 		switch s := r.Node().(type) {
 		case *ast.AssignStmt:
@@ -164,7 +192,14 @@ func runJSONKeys(c *Ctx) {
 					if cl, ok := ast.Unparen(s.Rhs[i]).(*ast.CompositeLit); ok {
 						for _, el := range cl.Elts {
 							if kv, ok := el.(*ast.KeyValueExpr); ok {
-								if ks, ok := constString(sinfo, kv.Key); ok {
+								ks, ok := constString(sinfo, kv.Key)
+								if !ok && respStruct != nil {
+									if id, isID := kv.Key.(*ast.Ident); isID {
+										ks = structTagOf(respStruct, id.Name)
+										ok = ks != ""
+									}
+								}
+								if ok {
 									keys[ks] = keyInfo{kv.Value, r}
 									if scfg.Dominates(r, encRef) {
 										always[ks] = true
@@ -176,6 +211,11 @@ func runJSONKeys(c *Ctx) {
 				}
 				if ix, ok := ast.Unparen(l).(*ast.IndexExpr); ok && ObjOf(sinfo, ix.X) == respObj && i < len(s.Rhs) {
 					if ks, ok := constString(sinfo, ix.Index); ok {
+						keys[ks] = keyInfo{s.Rhs[i], r}
+					}
+				}
+				if sel, ok := ast.Unparen(l).(*ast.SelectorExpr); ok && respStruct != nil && ObjOf(sinfo, sel.X) == respObj && i < len(s.Rhs) {
+					if ks := structTagOf(respStruct, sel.Sel.Name); ks != "" {
 						keys[ks] = keyInfo{s.Rhs[i], r}
 					}
 				}
@@ -219,6 +259,17 @@ func runJSONKeys(c *Ctx) {
 		if name != "-" {
 			tagOf[st.Field(i)] = name
 		}
+	}
+	// fields the decoder itself parses: a text that is not valid for the type fails the whole Unmarshal (time.Time and "")
+	typed := map[string]string{}
+	for fv, name := range tagOf {
+		if b, isBasic := types.Unalias(fv.Type()).Underlying().(*types.Basic); isBasic && b.Info()&(types.IsString|types.IsNumeric|types.IsBoolean) != 0 {
+			continue
+		}
+		if _, isPtr := types.Unalias(fv.Type()).Underlying().(*types.Pointer); isPtr {
+			continue
+		}
+		typed[name] = fv.Type().String()
 	}
 	// non-empty guards: cond `X.F != ""` (true) or `X.F == ""` (false)
 	guard := &PassSpec{Name: "nonempty", Vias: []Via{{Cond: func(f *FuncInfo, e ast.Expr) (string, bool, bool) {
@@ -293,7 +344,30 @@ func runJSONKeys(c *Ctx) {
 		key := "session-response/key/" + t
 		ki, emitted := keys[t]
 		rq, isReq := required[t]
+		// a struct response emits a field without omitempty on every path: with its zero value ("") where the handler did not set it
+		emptyWhenUnset := respStruct != nil && emitted && !always[t] && !omitEmpty[t]
+		if respStruct != nil && !emitted {
+			if _, declared := func() (string, bool) {
+				for i := 0; i < respStruct.NumFields(); i++ {
+					if structTagOf(respStruct, respStruct.Field(i).Name()) == t {
+						return t, true
+					}
+				}
+				return "", false
+			}(); declared {
+				emptyWhenUnset = !omitEmpty[t]
+			}
+		}
 		switch {
+		case emptyWhenUnset && (typed[t] != "" || isReq):
+			how := "parses it without a test for the empty string"
+			if typed[t] != "" {
+				how = "decodes it into " + typed[t] + ", which does not accept an empty text"
+			}
+			c.Bad(key, cli.Pos(), fmt.Sprintf("the server's response struct emits %q on every path, with an empty value where the handler did not set it (no omitempty), and the client %s: "+
+				"against a server configuration that leaves it unset (a session without a lifetime, --session-timeout 0) no host can create a session", t, how))
+		case typed[t] != "" && emitted && !serverValueFits(sinfo, ki.val, typed[t]):
+			c.Bad(key, ki.val.Pos(), fmt.Sprintf("client decodes key %q into %s but the server's value %s is not produced in that type's text form (time.Time: Format(time.RFC3339[Nano]) or a time.Time value)", t, typed[t], types.ExprString(ki.val)))
 		case !emitted:
 			c.Bad(key, cli.Pos(), fmt.Sprintf("client decodes JSON key %q which the server's /session handler never emits", t))
 		case isReq && !always[t]:
@@ -1237,4 +1311,40 @@ func enclosingLimitConds(p *Program, f *FuncInfo, n ast.Node, mentions func(*typ
 	}
 	sort.Strings(out)
 	return out
+}
+
+// structTagOf: the JSON key of the field named fieldName of st ("" when there is none or it is "-").
+func structTagOf(st *types.Struct, fieldName string) string {
+	for i := 0; i < st.NumFields(); i++ {
+		if st.Field(i).Name() != fieldName {
+			continue
+		}
+		name := strings.Split(reflectTag(st.Tag(i), "json"), ",")[0]
+		if name == "" {
+			name = fieldName
+		}
+		if name == "-" {
+			return ""
+		}
+		return name
+	}
+	return ""
+}
+
+// serverValueFits: the expression the server stores under a key decodes into the client's field type.
+func serverValueFits(info *types.Info, val ast.Expr, clientType string) bool {
+	if val == nil {
+		return false
+	}
+	if t := info.TypeOf(val); t != nil && t.String() == clientType {
+		return true
+	}
+	if clientType == "time.Time" {
+		if call, ok := ast.Unparen(val).(*ast.CallExpr); ok && calleeIs(info, call, "time", "Time.Format") && len(call.Args) == 1 {
+			if s, ok := constString(info, call.Args[0]); ok && (s == "2006-01-02T15:04:05Z07:00" || s == "2006-01-02T15:04:05.999999999Z07:00") {
+				return true
+			}
+		}
+	}
+	return false
 }
